@@ -83,6 +83,9 @@ struct ActivityWaitSimcall* vf_dyncast_SimcallObserver_to_ActivityWaitSimcall(st
     __CPROVER_ensures(__CPROVER_return_value == (g_is_wait_obs ? &g_obs_wait : NULL));
 struct ActivityWaitanySimcall* vf_dyncast_SimcallObserver_to_ActivityWaitanySimcall(struct SimcallObserver* o)
     __CPROVER_requires(o == &g_ob0 || o == &g_ob1) __CPROVER_assigns()
+    /* pointer_in_range first: it tells the symbolic executor which object the returned pointer lives in */
+    __CPROVER_ensures(__CPROVER_return_value == NULL ||
+                      __CPROVER_pointer_in_range_dfcc(&g_obs_any, __CPROVER_return_value, &g_obs_any))
     __CPROVER_ensures(__CPROVER_return_value == (g_is_any_obs ? &g_obs_any : NULL));
 void DelayedSimcallObserver_bool__set_result(struct DelayedSimcallObserver_bool* self, _Bool v)
     __CPROVER_requires(g_result_calls < 2000) __CPROVER_assigns(g_result_calls, g_result_val, g_result_obj)
@@ -269,17 +272,29 @@ void ActivityImpl__wait_any_for__lambda0(void* __env)
  * to and including the FIRST one that is already over; that one (and no other) is finish()ed - the waitany returns an
  * already completed activity if there is one; the activities after it are not touched.
  * (model-checker mode: no timer; the activity chosen by the checker is registered, marked DONE and finished) */
-size_t gj; /* ghost position in the activity set */
-#define AV_FIN(k) FINISHED_STATE(g_av[k]->state_)
+size_t gj; /* ghost position in the activity set (unused since the clauses are per activity) */
+/* field of the activity p, selected by comparing the pointer (no dereference of a symbolic pointer) */
+#define SELV(p, F) ((p) == &g_v0 ? g_v0.F : (p) == &g_v1 ? g_v1.F : g_v2.F)
+#define AV_FIN(k) FINISHED_STATE(SELV(g_av[k], state_))
 #define NONE_FIN_BEFORE(k) ((!(0 < (k)) || !AV_FIN(0)) && (!(1 < (k)) || !AV_FIN(1)) && (!(2 < (k)) || !AV_FIN(2)))
+/* activity i sits at a position of the set that the registration loop reaches (no earlier activity is already over) */
+#define REACHED_AT(i, k) ((k) < g_acts.n && g_av[k] == &g_v##i && NONE_FIN_BEFORE(k))
+#define REACHED(i) (REACHED_AT(i, 0) || REACHED_AT(i, 1) || REACHED_AT(i, 2))
+#define WA_REG(i)                                                                                                      \
+  (REACHED(i) ? (g_v##i.simcalls_.n == __CPROVER_old(g_v##i.simcalls_.n) + 1 &&                                        \
+                 g_sc##i[__CPROVER_old(g_v##i.simcalls_.n)] == &issuer->simcall_ &&                                    \
+                 g_v##i.vf_finished == __CPROVER_old(g_v##i.vf_finished) + (FINISHED_STATE(g_v##i.state_) ? 1 : 0))     \
+              : (g_v##i.simcalls_.n == __CPROVER_old(g_v##i.simcalls_.n) &&                                            \
+                 g_v##i.vf_finished == __CPROVER_old(g_v##i.vf_finished)))
 #define ACTS_DISTINCT                                                                                                  \
   ((!(1 < g_acts.n) || g_av[0] != g_av[1]) && (!(2 < g_acts.n) || (g_av[0] != g_av[2] && g_av[1] != g_av[2])))
 #define ROOM_ALL(p)                                                                                                    \
   (g_v0.simcalls_.n < SC && g_v1.simcalls_.n < SC && g_v2.simcalls_.n < SC && (p)->waiting_synchros_.n <= WC - NV)
 #define SIM_MODE (g_mc == 0 && g_replay == 0)
 #define MC_IDX (g_obs_any.next_value_)
-#define MC_FIN(k)                                                                                                      \
-  (MC_IDX != (k) || (g_av[k]->state_ == State__DONE && g_av[k]->vf_finished == __CPROVER_old(g_av[k]->vf_finished) + 1))
+#define MC_CHOSEN(i) ((MC_IDX == 0 && g_av[0] == &g_v##i) || (MC_IDX == 1 && g_av[1] == &g_v##i) || (MC_IDX == 2 && g_av[2] == &g_v##i))
+#define MC_FIN(i)                                                                                                      \
+  (!MC_CHOSEN(i) || (g_v##i.state_ == State__DONE && g_v##i.vf_finished == __CPROVER_old(g_v##i.vf_finished) + 1))
 void ActivityImpl__wait_any_for(struct ActorImpl* issuer, struct vf_seq_ActivityImplP* activities, double timeout)
     __CPROVER_requires(IS_ACTOR(issuer) && activities == &g_acts && WF_ACTS && ACTS_DISTINCT && WF && ROOM_ALL(issuer) &&
                        LOGS_OK && vf_exc == 0 && __CPROVER_isfinited(g_clock) && g_clock >= 0.0 &&
@@ -297,15 +312,8 @@ void ActivityImpl__wait_any_for(struct ActorImpl* issuer, struct vf_seq_Activity
                        g_set_fn == (vf_fnptr)ActivityImpl__wait_any_for__lambda0 && g_set_cap0 == (void*)issuer &&
                        g_set_cap1 == (void*)activities && issuer->simcall_.timeout_cb_ == &g_timer))
     /*@ waitany_sets_one_timer_at_clock_plus_timeout */
-    __CPROVER_ensures(!SIM_MODE || !(gj < g_acts.n) || !NONE_FIN_BEFORE(gj) ||
-                      (g_av[gj]->simcalls_.n == __CPROVER_old(g_av[gj]->simcalls_.n) + 1 &&
-                       g_av[gj]->simcalls_.d[__CPROVER_old(g_av[gj]->simcalls_.n)] == &issuer->simcall_ &&
-                       g_av[gj]->vf_finished == __CPROVER_old(g_av[gj]->vf_finished) + (AV_FIN(gj) ? 1 : 0)))
-    /*@ waitany_registers_up_to_first_completed_and_finishes_exactly_it */
-    __CPROVER_ensures(!SIM_MODE || !(gj < g_acts.n) || NONE_FIN_BEFORE(gj) ||
-                      (g_av[gj]->simcalls_.n == __CPROVER_old(g_av[gj]->simcalls_.n) &&
-                       g_av[gj]->vf_finished == __CPROVER_old(g_av[gj]->vf_finished)))
-    /*@ waitany_leaves_activities_after_the_completed_one_alone */
+    __CPROVER_ensures(!SIM_MODE || (WA_REG(0) && WA_REG(1) && WA_REG(2)))
+    /*@ waitany_registers_up_to_first_completed_finishes_exactly_it_and_leaves_the_rest_alone */
     __CPROVER_ensures(!SIM_MODE || (g_v0.state_ == __CPROVER_old(g_v0.state_) && g_v1.state_ == __CPROVER_old(g_v1.state_) &&
                                     g_v2.state_ == __CPROVER_old(g_v2.state_) &&
                                     g_lresult_calls == __CPROVER_old(g_lresult_calls)))
@@ -429,11 +437,6 @@ void harness(void)
   VF_CANARY_POINT;
 }
 #endif
-/* UNDECIDED, not part of check.json: the harness of ActivityImpl::wait_any_for itself (contract and loop invariant
- * above) did not finish within 900 s of cbmc (symbolic execution, `--object-bits 12`) on the loaded machine, so its
- * obligations are neither discharged nor refuted. To try it: add {"name": "wait_any_for", "enforce":
- * "ActivityImpl__wait_any_for", "expect_loops": ["ActivityImpl__wait_any_for"], "cbmc": ["--object-bits", "12"]} to
- * check.json. The contract is not used by any other harness (wait_any_for is not a callee of a C12 unit). */
 #ifdef H_wait_any_for
 void harness(void)
 {
